@@ -108,6 +108,8 @@ def one_case(ctx: Ctx, stream: str, i: int) -> None:
         st, esx = safe(enc.op, op)
         key = sx(esx) if st == 'ok' else f'{label}:{i}'
         cfg = {'label': label, 'class': type(op).__name__, 'expr': key[:1200]}
+        if st == 'ok':
+            ctx.in_domain(stream, i, esx, cfg)
         st, cols = safe(gen.dense, op)
         if st != 'ok':
             ctx.fail(stream, i, f'apply-raises:{label}:{st}', str(cols)[:150], cfg)
